@@ -306,12 +306,16 @@ PROPS['C19'] = {
     'oracles': {'*': 'c19_roundtrip'},
     'bounded': [('c19_roundtrip', 'the round trip itself, BOUNDED: 43 rules and facts in the documented syntax (atoms, atoms with spaces, integers, floats, variables, $_, lists with tail variable, nested terms, '
                                   'conjunction / disjunction in every mix of two and three levels, not, cut, fail, the built-in predicates, infix comparison and arithmetic, facts of several arities): the parser accepts each, '
-                                  'the printed value is the canonical text (the text itself; the functional form for infix operators and `name()` for a fact without arguments), and parsing the printed text gives an equal value')],
+                                  'the printed value is the canonical text (the text itself; the functional form for infix operators and `name()` for a fact without arguments), and parsing the printed text gives an equal value'),
+                ('c19_random', 'the round trip on GENERATED rules, BOUNDED: about 2400 distinct rules per seed (1 seed quick, 12 thorough), each generated as a tree from which the source text (infix comparison / arithmetic where the syntax '
+                               'allows, extra blanks around separators) and the canonical text (functional forms, `, ` `; ` ` :- `, a disjunction of conjunctions) are written: heads and calls with atoms, atoms with a space, integers, floats, '
+                               'variables, $_, lists with tail variable, nested complex terms and functions; unification, the five comparisons, the seven built-in predicates, !, fail, nl, not and time around any literal. '
+                               'Signed numbers only as arguments (C20 known finding), no parentheses for grouping (not in the documented syntax)')],
     'not_covered': [
         'PARTIAL.  PROVED (Verus, verbatim token_tree_to_goal in unit tokentree): the goal built for a conjunction / disjunction has the kind of the branch token and exactly one operand per child - no operand of a rule body is dropped (#operands_kept, #operand_per_child); '
         'the children of an And / Or branch are operands only (Subgoal leaves and Group / And / Or branches: ttg_kids_ok, established by the grouping functions)',
         'NOT PROVED, bounded only: the string-level inverse (print after parse = canonical text, parse after print = equal value) for terms, lists, numbers, built-ins and infix operators - Verus has no theory connecting Display output with parser input; '
-        'the 43 canonical texts of c19_roundtrip stand in for it, labelled bounded',
+        'the 43 canonical texts of c19_roundtrip and the generated rules of c19_random stand in for it, labelled bounded',
         'outside the claim: parenthesised groups (not in the statement\'s list of documented syntax; Display writes no parentheses, so `(a; b), c` prints as `a; b, c`), and the observations of DESIGN.md 8.22 on number classification (C20)',
     ],
 }
@@ -319,7 +323,7 @@ PROPS['C20'] = {
     'units': ['contexts_a', 'contexts_b', 'contexts_c'],
     'functions': ['infix.rs::check_arithmetic_infix', 'parse_terms.rs::parse_term', 'parse_goals.rs::get_left_and_right', 's_linked_list.rs::parse_linked_list', 'parse_terms.rs::parse_arguments'],
     'oracles': {'*': 'c20_contexts', '#argument_not_infix': 'c20_known_infix', '#argument_as_alone': 'c20_known_flags'},
-    'bounded': [('c20_contexts', 'the property itself, BOUNDED: 207 term texts (atoms, variables, $_, integers, floats, signed numbers, quoted atoms, lists, complex terms, functions, infix arithmetic, punctuation atoms, escapes, inner white space, '
+    'bounded': [('c20_contexts', 'the property itself, BOUNDED: 207 fixed term texts and about 160 generated terms per seed (nested lists, complex terms, functions, infix arithmetic; the term generator of c19_random) (fixed: atoms, variables, $_, integers, floats, signed numbers, quoted atoms, lists, complex terms, functions, infix arithmetic, punctuation atoms, escapes, inner white space, '
                                  'unbalanced brackets, a digit next to each punctuation character; eight of them also with white space around) written in nine contexts (only argument / second of three arguments of a complex term, argument of a built-in, of a query, only / second element '
                                  'of a list, right of `=`, left of `>=`, right of an arithmetic infix) wherever the text stays one term of the context: the term that comes out against parse_term(text). A deviation is passed over only if it is a '
                                  'known finding by context, shape of the text AND the two values (replay/src/o_contexts.rs known_deviation)'),
